@@ -273,11 +273,20 @@ func (m *ModuleInstance) validateData(data []DataSegment) (err error) {
 // applyData uses the given data segments and mutate the memory according to the initial contents on it
 // and populate the `DataInstances`. This is called after all the validation phase passes and out of
 // bounds memory access error here is not a validation error, but rather a runtime error.
-func (m *ModuleInstance) applyData(data []DataSegment) error {
+// buildDataInstances allocates the data instances, which exist regardless of whether applyData succeeds.
+func (m *ModuleInstance) buildDataInstances(data []DataSegment) {
 	m.DataInstances = make([][]byte, len(data))
 	for i := range data {
+		m.DataInstances[i] = data[i].Init
+	}
+}
+
+func (m *ModuleInstance) applyData(data []DataSegment) error {
+	if len(m.DataInstances) != len(data) {
+		m.buildDataInstances(data)
+	}
+	for i := range data {
 		d := &data[i]
-		m.DataInstances[i] = d.Init
 		if !d.IsPassive() {
 			offset := executeConstExpressionI32(m.Globals, &d.OffsetExpression)
 			if offset < 0 || int(offset)+len(d.Init) > len(m.MemoryInstance.Buffer) {
@@ -400,6 +409,12 @@ func (s *Store) instantiate(
 	// After engine creation, we can create the funcref element instances and initialize funcref type globals.
 	m.buildElementInstances(module.ElementSection)
 
+	m.buildDataInstances(module.DataSection)
+
+	// The engine must be ready before the segments are applied: when a data segment is out of bounds, the
+	// functions the element segments already put into a shared table remain callable.
+	m.Engine.DoneInstantiation()
+
 	// Now all the validation passes, we are safe to mutate table and memory instances (possibly imported ones).
 	// Element segments are applied before data segments as in the specification's instantiation order, so
 	// that their side effects persist when a later data segment is out of bounds.
@@ -408,8 +423,6 @@ func (s *Store) instantiate(
 	if err = m.applyData(module.DataSection); err != nil {
 		return nil, err
 	}
-
-	m.Engine.DoneInstantiation()
 
 	// Execute the start function.
 	if module.StartSection != nil {
